@@ -651,16 +651,23 @@ def zeros_warm_history(res, r, tier, viol_cap):
           res.count('zeros+warm history: budget escalated to 3000')
 
 
-def stationary_start(res, r, viol_cap):
+# only the totals of a chain (a,d),(d,b) and of (e) are measured, total 100: the uniform start is optimal, the loss is rounding noise
+# (1e-26) that goes up as often as down while the oracle's persisted messages settle, and every rise restarts with alpha/2 (known finding)
+PINNED_STATIONARY = ([['a', 2], ['d', 3], ['b', 3], ['e', 2]], [['a', 'd'], ['d', 'b'], ['e']], 100.0, True)
+
+
+def stationary_start(res, r, viol_cap, pinned=None):
     """measurements the uniform start already explains exactly (noise-free answers of a uniform population, or only the total measured):
     the loss cannot decrease, and estimation must still complete and hand back the (optimal) uniform tables"""
     from mbi import LocalInference
     names = r.sample(['a', 'b', 'c', 'd', 'e'], 4)
     dom = [[a, r.choice([2, 3])] for a in names]
-    sizes = dict(map(tuple, dom))
     fam = [[names[0], names[1]], [names[2], names[3]]] if r.random() < 0.5 else [[names[0], names[1]], [names[1], names[2]], [names[3]]]
     T = r.choice([1.0, 100.0, 1e4])
     totals_only = r.random() < 0.5
+    if pinned is not None:
+        dom, fam, T, totals_only = pinned
+    sizes = dict(map(tuple, dom))
     meas = []
     for cl in fam:
         n = int(np.prod([sizes[x] for x in cl]))
@@ -669,7 +676,7 @@ def stationary_start(res, r, viol_cap):
         else:
             meas.append((np.eye(n), np.full(n, T / n), 1.0, tuple(cl)))
     for oracle in ORACLES:
-        iters = r.choice([1, 10, 60])
+        iters = r.choice([1, 10, 60]) if pinned is None else 10
         canon = {'dom': dom, 'cliques': fam, 'total': T, 'oracle': oracle, 'iters': iters, 'history': 'stationary-start', 'totals_only': totals_only}
         res.case(canon, True)
         res.count('stationary start (the uniform tables are already optimal)')
@@ -680,7 +687,7 @@ def stationary_start(res, r, viol_cap):
             if isinstance(e, KeyboardInterrupt):
                 raise
             viol_cap('failing-input', f'oracle {oracle!r}, iters {iters}, total {T}: estimate raises {type(e).__name__} on measurements the uniform start explains exactly '
-                     f'(cliques {fam}, {"totals only" if totals_only else "exact uniform answers"})', {'request': canon}, f'local:stationary:raises:{type(e).__name__}')
+                     f'(cliques {fam}, {"totals only" if totals_only else "exact uniform answers"})', {'request': canon}, f'local:stationary:raises:{type(e).__name__}:{oracle}')
             continue
         for Q, y, sg, cl in meas:
             x = np.asarray(model.project(cl).datavector(), dtype=float)
@@ -745,10 +752,14 @@ def run(res, drv, tier, seed):
             res.count('cases skipped by the time budget', n - idx)
             break
         one_case(res, drv, r, tier, viol_cap, idx, limit - (time.time() - t0))
+    # the directed histories draw from their own stream: what they exercise must not depend on how many of the cases above fitted into
+    # the time budget (a loaded machine once shifted the stream onto the input pinned below, an idle one never did)
+    r2 = rng(seed, 'C18-directed')
+    stationary_start(res, r2, viol_cap, pinned=PINNED_STATIONARY)
     for _ in range(1 if tier == 'quick' else 8):
-        zeros_warm_history(res, r, tier, viol_cap)
-        stationary_start(res, r, viol_cap)
-        object_oracle(res, r, viol_cap)
+        zeros_warm_history(res, r2, tier, viol_cap)
+        stationary_start(res, r2, viol_cap)
+        object_oracle(res, r2, viol_cap)
     sub = res.extra.get('suboptimality', [])
     if sub:
         res.extra['worst_suboptimality_local_at_200'] = max([s[2] for s in sub if s[1] >= 200], default=None)
